@@ -88,6 +88,45 @@ func (p *Program) dispatchers() []*dispatchInfo {
 				}
 			}
 			if di.Call == nil {
+				// the executor is handed to a wrapper that calls it (a timing or counting helper:
+				// executeTimed(executor, conn, cmd, args)) and returns what it returned: the
+				// wrapper call stands for the executor call in the dispatcher
+				allInstrs(fn, func(i2 ssa.Instruction) {
+					call, ok := i2.(*ssa.Call)
+					if !ok || di.Call != nil {
+						return
+					}
+					h := staticCallee(call.Common())
+					if h == nil || !inFramework(h) || h.Blocks == nil {
+						return
+					}
+					for ai, a := range call.Common().Args {
+						v := strip(a)
+						ex, isEx := v.(*ssa.Extract)
+						if !(isEx && ex.Tuple == ssa.Value(lk) && ex.Index == 0) && v != ssa.Value(lk) {
+							continue
+						}
+						if ai >= len(h.Params) {
+							continue
+						}
+						par := h.Params[ai]
+						calls, other := 0, 0
+						if par.Referrers() != nil {
+							for _, r := range *par.Referrers() {
+								if hc, isC := r.(*ssa.Call); isC && hc.Common().Value == ssa.Value(par) {
+									calls++
+								} else if _, isD := r.(*ssa.DebugRef); !isD {
+									other++
+								}
+							}
+						}
+						if calls > 0 && other == 0 {
+							di.Call = call
+						}
+					}
+				})
+			}
+			if di.Call == nil {
 				// a lookup helper returning (executor, found[, key]): the dispatcher is each
 				// function that calls the helper and then the executor it returned
 				if via := p.dispatchersVia(fn, di); len(via) > 0 {
@@ -196,7 +235,7 @@ func ruleGateBeforeExecutor(c *Ctx, rid string) {
 			c.undecided(rid, key+"/call", c.P.instrPos(d.Lookup), "the looked-up executor is not called in this function")
 			continue
 		}
-		connArg := strip(d.Call.Common().Args[0])
+		connArg := strip(d.connArg())
 		// lookup key must be strings.ToUpper(cmd) — R05.b; here: remember the key value
 		type st struct{ OK int8 }
 		a := &Auto[st]{Fn: d.Fn, Init: st{},
@@ -418,7 +457,55 @@ func definitelyNonNil(v ssa.Value) bool {
 		_ = mi
 		return true
 	}
+	// a sentinel: a package-level error variable of the repository that only its package
+	// initialiser assigns, from errors.New / fmt.Errorf (var ErrX = errors.New("..."))
+	if u, ok := v.(*ssa.UnOp); ok && u.Op == token.MUL {
+		if g, isG := u.X.(*ssa.Global); isG && sentinelError(g) {
+			return true
+		}
+	}
 	return false
+}
+
+var sentinelCache = map[*ssa.Global]bool{}
+
+func sentinelError(g *ssa.Global) bool {
+	if r, ok := sentinelCache[g]; ok {
+		return r
+	}
+	res := false
+	if theProgram != nil && g.Pkg != nil && pkgHasPrefix(g.Pkg.Pkg.Path(), modPath) && isErrorType(deref(g.Type())) {
+		stores, good := 0, 0
+		for _, fn := range theProgram.RepoFuncs(modPath) {
+			allInstrs(fn, func(ins ssa.Instruction) {
+				st, ok := ins.(*ssa.Store)
+				if !ok || st.Addr != ssa.Value(g) {
+					return
+				}
+				stores++
+				if fn.Name() == "init" && fn.Pkg == g.Pkg {
+					if call, isC := st.Val.(*ssa.Call); isC && nameIn(calleeName(call.Common()), "errors.New", "fmt.Errorf") {
+						good++
+					}
+				}
+			})
+		}
+		if init := g.Pkg.Func("init"); init != nil && stores == 0 {
+			allInstrs(init, func(ins ssa.Instruction) {
+				st, ok := ins.(*ssa.Store)
+				if !ok || st.Addr != ssa.Value(g) {
+					return
+				}
+				stores++
+				if call, isC := st.Val.(*ssa.Call); isC && nameIn(calleeName(call.Common()), "errors.New", "fmt.Errorf") {
+					good++
+				}
+			})
+		}
+		res = stores == 1 && good == 1
+	}
+	sentinelCache[g] = res
+	return res
 }
 
 func ruleCredentialsPresented(c *Ctx, rid string) {
@@ -2094,4 +2181,14 @@ func grownCopyOf(fn *ssa.Function, v ssa.Value) bool {
 		}
 	})
 	return copied
+}
+
+// connArg: the connection the executor call (or the wrapper call standing for it) is given.
+func (d *dispatchInfo) connArg() ssa.Value {
+	for _, a := range d.Call.Common().Args {
+		if strings.HasSuffix(a.Type().String(), "redis.Conn") {
+			return a
+		}
+	}
+	return d.Call.Common().Args[0]
 }
